@@ -140,6 +140,8 @@ def judge(ctx, binary, cases):
                     v["bad"].append((key, val.split(":")[0].split("@")[0]))
             if not t.get("affine", "missing").startswith("ok"):
                 v["bad"].append(("affine", t.get("affine", "missing").split(":")[0]))
+            if t.get("pure", "missing") != "ok":
+                v["bad"].append(("pure", t.get("pure", "missing")))
             v["train_exact"] = t.get("train", "").startswith("exact")
             v["cmp"] = t.get("cmp", "")
     for c, v in zip(cases, verdicts):
@@ -184,6 +186,8 @@ WHAT = {
     "mean": "the projection's mean vector is not the mean of the training samples",
     "unseen": "the projection function is not x -> P^T (x - mean) for the returned (P, mean)",
     "affine": "the projection function is not affine",
+    "pure": "the projection function is not a pure function of its argument (results of earlier applications are "
+            "disturbed by later ones / several applications in one expression interfere)",
     "has": "projection presence is wrong for the method",
     "validate": "a target dimension above the feature dimension is not rejected with wrong_parameter_error",
     "impl": "the implementation aborted / threw",
@@ -332,7 +336,9 @@ def correspond(ctx):
     ctx.cov["rule"] = ("public-API runs of the five projecting methods (PCA, Random Projection, NPE, LLTSA, LPP) on integer "
                        "and dyadic feature data (N <= %d, D <= 8, d <= D): projection(x_i) vs embedding row i (bitwise), "
                        "stored mean vs model mean, projection of unseen vectors vs the model's project on the returned "
-                       "(P, mean), affinity on exact convex / affine combinations; all 20 methods: presence of a projection "
+                       "(P, mean), affinity on exact convex / affine combinations — also with a*f(x_i)+(1-a)*f(x_j) "
+                       "evaluated by the implementation in ONE expression, an earlier result held by reference across a "
+                       "later application, and f(x)-f(y); all 20 methods: presence of a projection "
                        "object vs the generated table; d > D probes; non-trivial = N >= 4; distinct by case text"
                        % (32 if quick else 64))
     ctx.assumptions += [
